@@ -1,7 +1,7 @@
 (* path.Base of a path whose last element is a plain name; shape of Clean / Join results
    whose last element is a plain name; legal layer names are plain, dot-free tokens. *)
 From Coq Require Import ZifyBool ZifyNat ZifyN.
-From LC Require Import Lib.Bytes Lib.Lex Lib.Fields Lib.PathM Gen.Consts Model.MountInfo Model.FsTree Model.Kernel Model.Layers Proofs.PathP.
+From LC Require Import Lib.Bytes Lib.Lex Lib.Fields Lib.PathM Gen.Consts Model.MountInfo Model.FsTree Model.Kernel Model.Layers Proofs.PathP Proofs.LegalNameP.
 Close Scope string_scope. Open Scope list_scope.
 
 (* a path that does not end in a slash (and is not empty) *)
@@ -137,19 +137,14 @@ Qed.
 
 (* ---- legal layer names *)
 Definition okch (c : ascii) : Prop := bn c <> 47%N /\ bn c <> 46%N /\ is_sp c = false.
-Lemma char_ok c : (is_alnum c || (bn c =? 95) || (bn c =? 45))%N = true -> okch c.
-Proof. unfold okch, is_alnum, is_sp. intros H. repeat split; lia. Qed.
+Lemma char_ok c : name_byte c = true -> okch c.
+Proof. intros H. destruct (name_byte_facts c H) as (H47 & H46 & _ & Hsp). repeat split; assumption. Qed.
 Lemma legal_rest_ok n : legal_rest n = true -> Forall okch n.
 Proof.
-  induction n as [|c n IH]; intros H; [constructor|]. cbn [legal_rest] in H.
-  apply andb_true_iff in H as [Hc Hr]. constructor; [now apply char_ok|now apply IH].
+  intros H. apply legal_rest_bytes in H. eapply Forall_impl; [|exact H]. intros c Hc. now apply char_ok.
 Qed.
 Lemma legal_name_ok n : legal_name n = true -> Forall okch n.
-Proof.
-  destruct n as [|c n]; intros H; [constructor|]. cbn [legal_name] in H.
-  apply andb_true_iff in H as [Hc Hr]. constructor; [|now apply legal_rest_ok].
-  apply char_ok. rewrite Hc. reflexivity.
-Qed.
+Proof. intros H. apply legal_rest_ok, legal_name_rest, H. Qed.
 Lemma bn_sl : bn sl = 47%N.
 Proof. reflexivity. Qed.
 Lemma bn_46 : bn (nb 46) = 46%N.
